@@ -27,6 +27,9 @@ def main():
         mtxt = json.dumps(meta)
         if pkg.startswith("ipmi"): d = "pkg/ipmi"
         elif pkg.startswith("dcmi"): d = "pkg/dcmi"
+        elif pkg in ("bcd", "bcd_test"): d = "internal/pkg/bcd"
+        elif pkg in ("complement", "complement_test"): d = "internal/pkg/complement"
+        elif pkg in ("transport", "transport_test"): d = "internal/pkg/transport"
         elif pkg == "main": d = "cmd/seeddemo"
         elif pkg in ("bmc", "bmc_test"): d = "."
         else: d = "seeddemo_" + re.sub(r"\W", "", pkg)     # a self-contained external test package of its own
